@@ -1351,7 +1351,16 @@ func (z *Decimal) SetMantExp(mant *Decimal, exp int) *Decimal {
 	if z.form != finite {
 		return z
 	}
-	z.setExpAndRound(int64(z.exp)+int64(exp), 0)
+	// Keep the sum from wrapping around int64; that far out the result over-
+	// or underflows anyway.
+	const lim = 1 << 62
+	e := int64(exp)
+	if e > lim {
+		e = lim
+	} else if e < -lim {
+		e = -lim
+	}
+	z.setExpAndRound(int64(z.exp)+e, 0)
 	return z
 }
 
